@@ -554,6 +554,8 @@ type failReader struct {
 	pos  int
 	fail int // fail after this many bytes (sticky); <0 never
 	call *Call
+	// closeErr: Close reports an error (after the fact: every byte has been delivered)
+	closeErr bool
 }
 
 var ErrBody = errors.New("origin: injected body read failure")
@@ -577,10 +579,16 @@ func (r *failReader) Close() error {
 	if r.call != nil {
 		r.call.BodyClosed.Store(true)
 	}
+	if r.closeErr {
+		return ErrBodyClose
+	}
 	return nil
 }
 
-var tRe = regexp.MustCompile(`\$([TRA])([+-][0-9]+)`)
+var ErrLegacyCancel = errors.New("net/http: request canceled (Request.Cancel channel closed)")
+var ErrBodyClose = errors.New("origin: injected body close failure")
+
+var tRe = regexp.MustCompile(`\$([TRAJP])([+-][0-9]+)`)
 var xRe = regexp.MustCompile(`\$X([0-9A-Fa-f]{2})`)
 
 // subst expands the placeholders of a scripted header value: $S = serial of the reply,
@@ -604,6 +612,10 @@ func subst(v string, serial int, nowNs int64) string {
 			return tm.Format("Monday, 02-Jan-06 15:04:05 GMT")
 		case 'A':
 			return tm.Format(time.ANSIC)
+		case 'J':
+			return tm.Add(9*time.Hour).Format("Monday, 02-Jan-06 15:04:05") + " JST"
+		case 'P':
+			return tm.Add(-8*time.Hour).Format("Monday, 02-Jan-06 15:04:05") + " PST"
 		}
 		return tm.Format(http.TimeFormat)
 	})
@@ -690,16 +702,36 @@ func (o *origin) RoundTrip(req *http.Request) (*http.Response, error) {
 	ctx := req.Context()
 	if rp.IgnoreCtx {
 		ctx = context.WithoutCancel(ctx)
+	} else if req.Cancel != nil { //nolint:staticcheck
+		// http.Transport honours the deprecated Cancel channel for the whole exchange
+		var stop context.CancelCauseFunc
+		ctx, stop = context.WithCancelCause(ctx)
+		legacy := req.Cancel //nolint:staticcheck
+		done := make(chan struct{})
+		defer close(done)
+		go func() {
+			select {
+			case <-legacy:
+				stop(ErrLegacyCancel)
+			case <-done:
+				stop(nil)
+			}
+		}()
+		select {
+		case <-legacy:
+			stop(ErrLegacyCancel)
+		default:
+		}
 	}
 	if err := ctx.Err(); err != nil {
 		call.CtxDoneNs = w.now()
-		call.CtxErr = err.Error()
+		call.CtxErr = context.Cause(ctx).Error()
 		return finishErr(err)
 	}
 	if rp.Kind == "hang" {
 		<-ctx.Done()
 		call.CtxDoneNs = w.now()
-		call.CtxErr = ctx.Err().Error()
+		call.CtxErr = context.Cause(ctx).Error()
 		return finishErr(ctx.Err())
 	}
 	if rp.LatencyNs > 0 {
@@ -716,7 +748,7 @@ func (o *origin) RoundTrip(req *http.Request) (*http.Response, error) {
 		case <-ctx.Done():
 			tm.Stop()
 			call.CtxDoneNs = w.now()
-			call.CtxErr = ctx.Err().Error()
+			call.CtxErr = context.Cause(ctx).Error()
 			return finishErr(ctx.Err())
 		}
 	}
@@ -784,7 +816,7 @@ func (o *origin) RoundTrip(req *http.Request) (*http.Response, error) {
 	if rp.Body.FailAt > 0 {
 		fail = rp.Body.FailAt - 1
 	}
-	var rd io.ReadCloser = &failReader{data: body, fail: fail, call: call}
+	var rd io.ReadCloser = &failReader{data: body, fail: fail, call: call, closeErr: rp.Body.CloseErr}
 	switch rp.Shape {
 	case "", "cl":
 		resp.ContentLength = int64(len(body))
@@ -860,7 +892,8 @@ func effectiveURL(req *http.Request) string {
 	if u.Opaque != "" {
 		raw := u.Scheme + ":" + u.Opaque
 		if !strings.HasPrefix(u.Opaque, "//") {
-			raw = u.Scheme + "://" + u.Host + u.Opaque
+			// (URL.Host holds the decoded host: "[fe80::1%eth0]" is written "[fe80::1%25eth0]")
+			raw = (&url.URL{Scheme: u.Scheme, Host: u.Host}).String() + u.Opaque
 		}
 		if u.ForceQuery || u.RawQuery != "" {
 			raw += "?" + u.RawQuery
@@ -1358,10 +1391,35 @@ func (w *World) doReqMode(rt http.RoundTripper, step int, rq *Req, concurrent bo
 			u.Opaque = "/"
 		}
 		if rq.OpaqueForm == 2 {
-			u.Opaque = "//" + u.Host + u.Opaque
+			// (URL.Host is the decoded host: a zone identifier is written "%25" again)
+			u.Opaque = (&url.URL{Host: u.Host}).String() + u.Opaque
 		}
 		u.Path, u.RawPath = "", ""
 		req.URL = &u
+	}
+	if rq.Rootless && req.URL.Opaque == "" && len(req.URL.Path) > 1 && req.URL.Path[0] == '/' && req.URL.Path[1] != '/' && req.URL.Host != "" {
+		// what url.Parse("http://host").JoinPath("a", "b") returns: Path "a/b". URL.String()
+		// puts the slash back, so the target URI is unchanged.
+		u := *req.URL
+		u.Path = u.Path[1:]
+		if u.RawPath != "" {
+			u.RawPath = u.RawPath[1:]
+		}
+		req.URL = &u
+	}
+	if rq.NilReqHeader && len(rq.Header) == 0 {
+		req.Header = nil
+	}
+	var legacyCancel chan struct{}
+	switch rq.LegacyCancel {
+	case "pre":
+		legacyCancel = make(chan struct{})
+		close(legacyCancel)
+	case "post", "open":
+		legacyCancel = make(chan struct{})
+	}
+	if legacyCancel != nil {
+		req.Cancel = legacyCancel //nolint:staticcheck // deprecated, but honoured by net/http and set by http.Client
 	}
 	if rq.DialVia != "" {
 		u := *req.URL
@@ -1467,6 +1525,9 @@ func (w *World) doReqMode(rt http.RoundTripper, step int, rq *Req, concurrent bo
 	}
 	ro.Trailer = resp.Trailer.Clone()
 	ex.Resp = ro
+	if rq.LegacyCancel == "post" {
+		close(legacyCancel) // the classic "defer close(cancel)" of a caller that is done
+	}
 	if rq.ReuseReq {
 		// the body is closed: the caller may now reuse / modify its request
 		if rq.ReuseDelayNs > 0 {
